@@ -585,6 +585,7 @@ func meta(c Case) vr.Meta {
 	}
 	ex := expectOf(c.Doc)
 	deep, navLeaf, prot := false, false, 0
+	var protAt [4]int
 	for _, l := range ex.leaf {
 		if l.Anc.Depth >= 3 {
 			deep = true
@@ -595,6 +596,11 @@ func meta(c Case) vr.Meta {
 		if protected(l.Anc, 3) {
 			prot++
 		}
+		for m := 1; m < 4; m++ {
+			if protected(l.Anc, m) {
+				protAt[m]++
+			}
+		}
 	}
 	chrome := has("nav") || has("aside") || has("header") || has("footer")
 	labels := append([]string{}, feats...)
@@ -603,6 +609,14 @@ func meta(c Case) vr.Meta {
 	}
 	if navLeaf {
 		labels = append(labels, "text-under-explicit-chrome")
+	}
+	for m := 1; m < 4; m++ {
+		if protAt[m] > 0 {
+			labels = append(labels, "has-text-mode-"+modeName[m]+"-must-keep")
+		}
+		if m > 1 && protAt[m] < protAt[m-1] {
+			labels = append(labels, "has-text-only-mode-"+modeName[m]+"-may-drop")
+		}
 	}
 	if prot > 0 && prot < len(ex.leaf) {
 		labels = append(labels, "mixed-protected-and-excludable")
